@@ -397,6 +397,13 @@ func (c *UConn) handshakeContext(ctx context.Context) (ret error) {
 	if c.isClient {
 		err := c.BuildHandshakeState()
 		if err != nil {
+			if c.quic != nil {
+				// UQUICConn.Start, HandleData and Close wait on these
+				// channels: release them, and let Start report the error.
+				c.handshakeErr = err
+				close(c.quic.blockedc)
+				close(c.quic.signalc)
+			}
 			return err
 		}
 	}
